@@ -243,7 +243,7 @@ theorem SendInv.setHst (h' : HSt) : PresE P (Foca.modS fun s => { s with hst := 
 
 theorem SendInv.addCustom (h' : HSt) (key : Key) (data : Bytes) : PresE P (Foca.modS fun s =>
     { s with hst := h', custom := addOrReplace s.custom E.handler.invalidates key data s.cfg.maxTx }) :=
-  SendInv.modS ((OwnInvA.base E a).addCustom h' key data)
+  SendInv.modS (Pres.modS_of (fun s hs => OwnInvA.of_same a (s := s) rfl rfl (Or.inl rfl) hs))
 
 theorem SendInv.addBroadcast (d : Bytes) : PresE P (Foca.addBroadcast E d) := by
   unfold Foca.addBroadcast
